@@ -490,13 +490,24 @@ class Qiskit(Adapter):
         return c
 
     def preconv_case(self, rng, npr):
-        n = rng.randint(2, 3)
+        """pre_conversion hands the circuit to Qiskit's transpiler first: mix gates the converter knows with gates it does
+        not, and include SWAPs / CX triples (permutations, which an optimising transpiler may elide into a final layout)"""
+        n = rng.randint(2, 4)
         c = self.new(n)
         descs = []
-        for _ in range(rng.randint(1, 3)):
-            k = rng.choice(["matrix_fallback", "matrix_fallback_1q", "cx_cz", "u_gates", "named_1q"] +
-                           (["matrix_fallback_3q"] if n >= 3 else []))
-            d, ap = self.rev_op(k, rng, npr, n)
+        kinds = ["matrix_fallback", "matrix_fallback_1q", "cx_cz", "u_gates", "named_1q", "rotation", "swap", "swap",
+                 "cx_triple"] + (["matrix_fallback_3q", "ccx"] if n >= 3 else [])
+        for _ in range(rng.randint(1, 8)):
+            k = rng.choice(kinds)
+            if k == "cx_triple":
+                a, b = rng.sample(range(n), 2)
+                c.cx(a, b), c.cx(b, a), c.cx(a, b)
+                descs.append(["cx_triple", a, b])
+                continue
+            r = self.rev_op(k, rng, npr, n)
+            if r is None:
+                continue
+            d, ap = r
             ap(c)
             descs.append(d)
         return c, descs, n
@@ -1264,7 +1275,7 @@ class Driver:
                                   f"dist {d:.3e}", inp)
 
     def qiskit_preconversion(self, ad):
-        for _ in range(3 if self.tier == "quick" else 40):
+        for _ in range(12 if self.tier == "quick" else 150):
             bc, descs, n = ad.preconv_case(self.rng, self.npr)
             self.res.count(("qiskit", "pre_conversion", str(descs), n), bucket="qiskit:reverse_pre_conversion")
             try:
